@@ -130,13 +130,13 @@ func (o Op) String() string {
 		s += fmt.Sprintf(" #%d as %s", o.I, plumbing.ObjectType(o.T))
 	case o.K == "obj.iter":
 		s += " " + plumbing.ObjectType(o.T).String()
-	case o.K == "obj.pack" || o.K == "sh.set":
+	case o.K == "obj.pack" || o.K == "sh.set" || o.K == "sh.setmut":
 		s += fmt.Sprint(" ", o.List)
 	case strings.HasPrefix(o.K, "obj."):
 		s += fmt.Sprintf(" #%d", o.I)
-	case o.K == "idx.set" || o.K == "cfg.set":
+	case o.K == "idx.set" || o.K == "cfg.set" || o.K == "idx.setmut" || o.K == "cfg.setmut" || o.K == "idx.ext":
 		s += fmt.Sprintf(" v%d", o.I)
-	case o.K == "rl.append":
+	case o.K == "rl.append" || o.K == "rl.appendmut":
 		s += fmt.Sprintf(" %s e%d", o.Name, o.I)
 	}
 	if o.Name != "" && !strings.HasPrefix(o.K, "rl.append") {
@@ -542,6 +542,100 @@ func Exec(st storage.Storer, u *Universe, op Op) Res {
 			return errRes(err)
 		}
 		return okv("%s", normReflog(es))
+	case "idx.getmut":
+		// aliasing probe: the caller edits the value a getter returned and gives up (no setter call)
+		idx, err := st.Index()
+		if err != nil {
+			return errRes(err)
+		}
+		mutateIndex(u, idx)
+		idx2, err := st.Index()
+		if err != nil {
+			return errRes(err)
+		}
+		return okv("%s", normIndex(idx2))
+	case "idx.setmut":
+		// aliasing probe: the caller keeps editing the value after the setter returned
+		v := u.IndexVariant(op.I)
+		if err := st.SetIndex(v); err != nil {
+			return errRes(err)
+		}
+		mutateIndex(u, v)
+		idx2, err := st.Index()
+		if err != nil {
+			return errRes(err)
+		}
+		return okv("%s", normIndex(idx2))
+	case "cfg.getmut":
+		c, err := st.Config()
+		if err != nil {
+			return errRes(err)
+		}
+		mutateConfig(c)
+		c2, err := st.Config()
+		if err != nil {
+			return errRes(err)
+		}
+		return okv("%s", normConfig(c2))
+	case "cfg.setmut":
+		cur, err := st.Config()
+		if err != nil {
+			return errRes(err)
+		}
+		c, err := copyConfig(cur)
+		if err != nil {
+			return errRes(err)
+		}
+		ApplyConfigVariant(c, op.I)
+		if err := st.SetConfig(c); err != nil {
+			return errRes(err)
+		}
+		mutateConfig(c)
+		c2, err := st.Config()
+		if err != nil {
+			return errRes(err)
+		}
+		return okv("%s", normConfig(c2))
+	case "sh.getmut":
+		hs, err := st.Shallow()
+		if err != nil {
+			return errRes(err)
+		}
+		mutateHashes(hs)
+		return Exec(st, u, Op{K: "sh.get"})
+	case "sh.setmut":
+		var hs []plumbing.Hash
+		for _, k := range op.List {
+			hs = append(hs, plumbing.NewHash(u.CommitHash(k)))
+		}
+		if err := st.SetShallow(hs); err != nil {
+			return errRes(err)
+		}
+		mutateHashes(hs)
+		return Exec(st, u, Op{K: "sh.get"})
+	case "rl.getmut", "rl.appendmut":
+		rs, ok := st.(storer.ReflogStorer)
+		if !ok {
+			return Res{Kind: "other", Detail: "storer has no reflog support"}
+		}
+		if op.K == "rl.appendmut" {
+			e := u.ReflogVariant(op.I)
+			if err := rs.AppendReflog(plumbing.ReferenceName(op.Name), e); err != nil {
+				return errRes(err)
+			}
+			e.Message = "aliasing probe"
+			e.NewHash = plumbing.ZeroHash
+		} else {
+			es, err := rs.Reflog(plumbing.ReferenceName(op.Name))
+			if err != nil {
+				return errRes(err)
+			}
+			for _, e := range es {
+				e.Message = "aliasing probe"
+				e.Committer.Name = "probe"
+			}
+		}
+		return Exec(st, u, Op{K: "rl.get", Name: op.Name})
 	case "mod.ref.set", "mod.ref.get", "mod.obj.set", "mod.obj.has":
 		m, err := st.Module(op.Name)
 		if err != nil {
@@ -559,6 +653,74 @@ func Exec(st storage.Storer, u *Universe, op Op) Res {
 		return Exec(m, u, sub)
 	}
 	return Res{Kind: "other", Detail: "harness: unknown op " + op.K}
+}
+
+// mutateIndex edits an index value in place the way a half-finished worktree operation does.
+func mutateIndex(u *Universe, idx *index.Index) {
+	if len(idx.Entries) > 0 {
+		idx.Entries[0].Hash = u.Objs[len(u.Objs)-1].Hash
+		idx.Entries[0].Size += 7
+		idx.Entries[0].Name += "~probe"
+		idx.Entries = idx.Entries[:len(idx.Entries)-1]
+	}
+	idx.Entries = append(idx.Entries, &index.Entry{Name: "zz-aliasing-probe", Hash: u.Objs[0].Hash, Mode: filemode.Regular})
+}
+
+func mutateConfig(c *config.Config) {
+	c.User.Name = "aliasing probe"
+	c.Core.IsBare = !c.Core.IsBare
+	if r, ok := c.Remotes["origin"]; ok && len(r.URLs) > 0 {
+		r.URLs[0] = "https://example.com/aliasing-probe.git"
+	}
+	delete(c.Remotes, "up")
+	delete(c.Branches, "main")
+	c.Remotes["probe"] = &config.RemoteConfig{Name: "probe", URLs: []string{"https://example.com/probe.git"}}
+}
+
+func mutateHashes(hs []plumbing.Hash) {
+	for i := range hs {
+		hs[i] = plumbing.ZeroHash
+	}
+}
+
+// Restore rewrites one subsystem of st from the model through the setters with fresh values
+// (used after an aliasing probe found that a caller's edit leaked into the storage).
+func Restore(st storage.Storer, u *Universe, m *Repo, sub string) error {
+	switch sub {
+	case "idx":
+		if m.Index >= 0 {
+			return st.SetIndex(u.IndexVariant(m.Index))
+		}
+		return st.SetIndex(&index.Index{Version: 2})
+	case "cfg":
+		c := m.configValue(u, m.cfg)
+		if u.Format == formatcfg.SHA256 {
+			c.Core.RepositoryFormatVersion = formatcfg.Version1
+		}
+		return st.SetConfig(c)
+	case "sh":
+		var hs []plumbing.Hash
+		for _, k := range m.Shallow {
+			hs = append(hs, plumbing.NewHash(u.CommitHash(k)))
+		}
+		return st.SetShallow(hs)
+	case "rl":
+		rs, ok := st.(storer.ReflogStorer)
+		if !ok {
+			return nil
+		}
+		for _, name := range u.Reflogs {
+			if err := rs.DeleteReflog(plumbing.ReferenceName(name)); err != nil {
+				return err
+			}
+			for _, k := range m.Reflog[name] {
+				if err := rs.AppendReflog(plumbing.ReferenceName(name), u.ReflogVariant(k)); err != nil {
+					return err
+				}
+			}
+		}
+	}
+	return nil
 }
 
 // ---------------------------------------------------------------------------
@@ -711,6 +873,32 @@ func (m *Repo) Exec(u *Universe, op Op) Res {
 			es = append(es, u.ReflogVariant(k))
 		}
 		return okv("%s", normReflog(es))
+	case "idx.getmut":
+		return m.Exec(u, Op{K: "idx.get"})
+	case "idx.setmut", "idx.ext":
+		m.Index = op.I
+		if op.K == "idx.ext" {
+			return Res{Kind: "ok"}
+		}
+		return m.Exec(u, Op{K: "idx.get"})
+	case "cfg.getmut":
+		return m.Exec(u, Op{K: "cfg.get"})
+	case "cfg.setmut":
+		m.cfg = append(m.cfg, op.I)
+		m.Config = op.I
+		return m.Exec(u, Op{K: "cfg.get"})
+	case "sh.getmut":
+		return m.Exec(u, Op{K: "sh.get"})
+	case "sh.setmut":
+		m.Shallow = append([]int(nil), op.List...)
+		return m.Exec(u, Op{K: "sh.get"})
+	case "rl.getmut":
+		return m.Exec(u, Op{K: "rl.get", Name: op.Name})
+	case "rl.appendmut":
+		m.Reflog[op.Name] = append(m.Reflog[op.Name], op.I)
+		return m.Exec(u, Op{K: "rl.get", Name: op.Name})
+	case "reopen":
+		return Res{Kind: "ok"}
 	case "mod.ref.set", "mod.ref.get", "mod.obj.set", "mod.obj.has":
 		sub := m.Mods[op.Name]
 		if sub == nil {
@@ -778,6 +966,8 @@ type GenOpts struct {
 	SymHEAD      bool     // HEAD may be symbolic
 	ShallowEmpty bool     // SetShallow(nil) after a non-empty list
 	WriteBias    int      // percentage of writes among generated ops (default 50)
+	Alias        int      // percentage of index/config/shallow/reflog ops turned into aliasing probes (get/set, edit the value, get again)
+	Reopen       bool     // "reopen" (new storage instance on the same files) and "idx.ext" (index rewritten through a second instance)
 }
 
 // GenOp draws one op; m is the current expected state (used to aim conditional sets, reads of present/absent items).
@@ -874,13 +1064,40 @@ func GenOp(r *rand.Rand, u *Universe, m *Repo, g GenOpts) Op {
 			}
 			return Op{K: "ref.get", Name: name}
 		case "idx":
+			probe := r.Intn(100) < g.Alias
+			if g.Reopen {
+				switch x := r.Intn(10); {
+				case x == 0:
+					return Op{K: "reopen"}
+				case x == 1:
+					// a rewrite that changes the file size (same-size same-mtime rewrites are not detectable by stat)
+					k := r.Intn(5)
+					if m.Index >= 0 && k != m.Index && len(u.IndexVariant(k).Entries) == len(u.IndexVariant(m.Index).Entries) {
+						k = m.Index
+					}
+					return Op{K: "idx.ext", I: k}
+				}
+			}
 			if write {
+				if probe {
+					return Op{K: "idx.setmut", I: r.Intn(5)}
+				}
 				return Op{K: "idx.set", I: r.Intn(5)}
+			}
+			if probe {
+				return Op{K: "idx.getmut"}
 			}
 			return Op{K: "idx.get"}
 		case "cfg":
+			probe := r.Intn(100) < g.Alias
 			if write {
+				if probe {
+					return Op{K: "cfg.setmut", I: r.Intn(5)}
+				}
 				return Op{K: "cfg.set", I: r.Intn(5)}
+			}
+			if probe {
+				return Op{K: "cfg.getmut"}
 			}
 			return Op{K: "cfg.get"}
 		case "sh":
@@ -893,7 +1110,13 @@ func GenOp(r *rand.Rand, u *Universe, m *Repo, g GenOpts) Op {
 				for j := 0; j < n; j++ {
 					l = append(l, r.Intn(len(u.Commits)))
 				}
+				if r.Intn(100) < g.Alias {
+					return Op{K: "sh.setmut", List: l}
+				}
 				return Op{K: "sh.set", List: l}
+			}
+			if r.Intn(100) < g.Alias {
+				return Op{K: "sh.getmut"}
 			}
 			return Op{K: "sh.get"}
 		case "rl":
@@ -902,7 +1125,13 @@ func GenOp(r *rand.Rand, u *Universe, m *Repo, g GenOpts) Op {
 				if r.Intn(4) == 0 {
 					return Op{K: "rl.del", Name: name}
 				}
+				if r.Intn(100) < g.Alias {
+					return Op{K: "rl.appendmut", Name: name, I: r.Intn(6)}
+				}
 				return Op{K: "rl.append", Name: name, I: r.Intn(6)}
+			}
+			if r.Intn(100) < g.Alias {
+				return Op{K: "rl.getmut", Name: name}
 			}
 			return Op{K: "rl.get", Name: name}
 		case "mod":
@@ -924,7 +1153,8 @@ func GenOp(r *rand.Rand, u *Universe, m *Repo, g GenOpts) Op {
 // IsWrite tells whether the op changes state.
 func (o Op) IsWrite() bool {
 	switch o.K {
-	case "obj.set", "obj.raw", "obj.pack", "ref.set", "ref.cas", "ref.rm", "ref.pack", "idx.set", "cfg.set", "sh.set", "rl.append", "rl.del", "mod.ref.set", "mod.obj.set":
+	case "obj.set", "obj.raw", "obj.pack", "ref.set", "ref.cas", "ref.rm", "ref.pack", "idx.set", "cfg.set", "sh.set", "rl.append", "rl.del", "mod.ref.set", "mod.obj.set",
+		"idx.setmut", "idx.ext", "cfg.setmut", "sh.setmut", "rl.appendmut":
 		return true
 	}
 	return false
